@@ -35,7 +35,7 @@ MAX_INCONCLUSIVE = 0.4
 
 def strategy(ctx):
     rng = ctx.rng("c07-pool")
-    size = 4 if ctx.tier == "quick" else 32
+    size = 4 if ctx.tier == "quick" else 6
     pool = []
     for _ in range(size):
         cfg = ssmcase.draw_structure(rng, strategies=("filter",), nmax=6, steps=(1, 1), inits=("exact", "inexact"), calibs=("none", "mle", "dynamic", "dynamic_relin"))
